@@ -6,6 +6,7 @@ import (
 	"fmt"
 	"go/ast"
 	"go/types"
+	"os"
 	"strings"
 
 	"golang.org/x/tools/go/ssa"
@@ -32,7 +33,7 @@ func (f *Frame) frameTargets() map[string][]modTarget {
 	top := f.topFrame()
 	ct := top.contract
 	out := map[string][]modTarget{}
-	if ct == nil || !ct.Frame {
+	if ct == nil || !(ct.Frame || ct.HasMod) {
 		return nil
 	}
 	env := &specEnv{f: top, st: top.entry, old: top.entry}
@@ -44,9 +45,11 @@ func (f *Frame) frameTargets() map[string][]modTarget {
 	return out
 }
 
+// frameOn: every function whose contract states a frame (modifies / pure) has each of its stores, and each callee's
+// frame, checked against it; callers rely on it.
 func (f *Frame) frameOn() bool {
 	top := f.topFrame()
-	return top.contract != nil && top.contract.Frame
+	return top.contract != nil && (top.contract.Frame || top.contract.HasMod) && !top.contract.Trusted
 }
 
 func (f *Frame) frameProps() []string {
@@ -138,6 +141,10 @@ func (f *Frame) frameCheckCall(in ssa.Instruction, ct *Contract, callee *ssa.Fun
 	}
 	for _, m := range ct.Modifies {
 		var cs []string
+		g := guard
+		if len(m.Exprs) > 0 {
+			g = and(guard, f.specBool(m.Exprs[0], env))
+		}
 		for _, t := range f.modTargets(m.Expr, env) {
 			if strings.HasPrefix(t.heap, "ghost_") || strings.HasPrefix(t.heap, "G_") {
 				cs = append(cs, f.allowedGlobal(t.heap))
@@ -145,13 +152,16 @@ func (f *Frame) frameCheckCall(in ssa.Instruction, ct *Contract, callee *ssa.Fun
 			}
 			cs = append(cs, f.allowedWrite(t.heap, t.ref, t.lo, t.hi))
 		}
-		e.oblige("frame", name+":"+m.Text, f.frameProps(), guard, and(cs...), f.pos(in.Pos()), "")
+		e.oblige("frame", name+":"+m.Text, f.frameProps(), g, and(cs...), f.pos(in.Pos()), "")
 	}
 }
 
 // frameAssume: at a loop head, pre-existing locations outside the function's frame are unchanged
 // (sound because every store in a frame-checked function is an obligation).
 func (f *Frame) frameAssume(h, sortS, before, after, allocBefore string) {
+	if os.Getenv("RTV_NOLOOPFRAME") != "" || !f.curLoopFrame {
+		return
+	}
 	if !f.frameOn() || !strings.HasPrefix(sortS, "(Array Int") {
 		return
 	}
